@@ -12,6 +12,33 @@ fn ct_sc(o: subtle::CtOption<Scalar>) -> Out {
     }
 }
 
+/// the GroupEncoding bytes of a decoded group element, marked when its internal representation is inconsistent
+trait Inner {
+    fn inner(&self) -> EdwardsPoint;
+}
+impl Inner for EdwardsPoint {
+    fn inner(&self) -> EdwardsPoint {
+        *self
+    }
+}
+impl Inner for SubgroupPoint {
+    fn inner(&self) -> EdwardsPoint {
+        EdwardsPoint::from(*self)
+    }
+}
+impl Inner for RistrettoPoint {
+    fn inner(&self) -> EdwardsPoint {
+        verif::ristretto_inner(self)
+    }
+}
+fn checked_bytes<P: GroupEncoding + Inner>(p: &P) -> String {
+    let mut h = hex(p.to_bytes().as_ref());
+    if !verif::edwards_is_valid(&p.inner()) {
+        h.push_str("!invalid-internal-representation");
+    }
+    h
+}
+
 pub fn register(m: &mut HashMap<&'static str, OpFn>) {
     m.insert("gp.sqrt", |a| ct_sc(Field::sqrt(&a.sc(0))));
     m.insert("gp.invert", |a| ct_sc(Field::invert(&a.sc(0))));
@@ -32,6 +59,23 @@ pub fn register(m: &mut HashMap<&'static str, OpFn>) {
             hex(&(x + y).to_bytes()),
             hex(&(x * y).to_bytes()),
             hex(&x.pow_vartime([5u64, 0, 0, 0]).to_bytes()),
+            // exponents of 1, 4, 5 and 8 limbs through pow and pow_vartime (the exponent is y's bytes, repeated)
+            {
+                let yb = y.to_bytes();
+                let l = |i: usize| u64::from_le_bytes(yb[8 * (i % 4)..8 * (i % 4) + 8].try_into().unwrap());
+                let e1 = [l(0)];
+                let e4 = [l(0), l(1), l(2), l(3)];
+                let e5 = [l(0), l(1), l(2), l(3), l(0) & 0xffff];
+                let e8 = [l(0), l(1), l(2), l(3), l(0), l(1), l(2), l(3)];
+                [
+                    Field::pow(&x, e1), x.pow_vartime(e1), Field::pow(&x, e4), x.pow_vartime(e4),
+                    Field::pow(&x, e5), x.pow_vartime(e5), Field::pow(&x, e8), x.pow_vartime(e8),
+                ]
+                .iter()
+                .map(|r| hex(&r.to_bytes()))
+                .collect::<Vec<_>>()
+                .join(",")
+            },
         ]
     });
     m.insert("gp.from_repr", |a| {
@@ -88,14 +132,14 @@ pub fn register(m: &mut HashMap<&'static str, OpFn>) {
         match Option::<EdwardsPoint>::from(<EdwardsPoint as GroupEncoding>::from_bytes(&b)) {
             Some(p) => {
                 o.push("some".into());
-                o.push(hex(&GroupEncoding::to_bytes(&p)));
+                o.push(checked_bytes(&p));
             }
             None => o.push("none".into()),
         }
         match Option::<EdwardsPoint>::from(<EdwardsPoint as GroupEncoding>::from_bytes_unchecked(&b)) {
             Some(p) => {
                 o.push("some".into());
-                o.push(hex(&GroupEncoding::to_bytes(&p)));
+                o.push(checked_bytes(&p));
             }
             None => o.push("none".into()),
         }
@@ -107,14 +151,14 @@ pub fn register(m: &mut HashMap<&'static str, OpFn>) {
         match Option::<SubgroupPoint>::from(<SubgroupPoint as GroupEncoding>::from_bytes(&b)) {
             Some(p) => {
                 o.push("some".into());
-                o.push(hex(&GroupEncoding::to_bytes(&p)));
+                o.push(checked_bytes(&p));
             }
             None => o.push("none".into()),
         }
         match Option::<SubgroupPoint>::from(<SubgroupPoint as GroupEncoding>::from_bytes_unchecked(&b)) {
             Some(p) => {
                 o.push("some".into());
-                o.push(hex(&GroupEncoding::to_bytes(&p)));
+                o.push(checked_bytes(&p));
             }
             None => o.push("none".into()),
         }
@@ -126,14 +170,14 @@ pub fn register(m: &mut HashMap<&'static str, OpFn>) {
         match Option::<RistrettoPoint>::from(<RistrettoPoint as GroupEncoding>::from_bytes(&b)) {
             Some(p) => {
                 o.push("some".into());
-                o.push(hex(&GroupEncoding::to_bytes(&p)));
+                o.push(checked_bytes(&p));
             }
             None => o.push("none".into()),
         }
         match Option::<RistrettoPoint>::from(<RistrettoPoint as GroupEncoding>::from_bytes_unchecked(&b)) {
             Some(p) => {
                 o.push("some".into());
-                o.push(hex(&GroupEncoding::to_bytes(&p)));
+                o.push(checked_bytes(&p));
             }
             None => o.push("none".into()),
         }
@@ -159,7 +203,7 @@ pub fn register(m: &mut HashMap<&'static str, OpFn>) {
     // trait group ops vs inherent: p q s
     m.insert("gp.ed_ops", |a| {
         let (p, q, s) = (a.ed(0), a.ed(1), a.sc(2));
-        let e = |x: EdwardsPoint| hex(x.compress().as_bytes());
+        let e = |x: EdwardsPoint| ed_hex_checked(&x);
         vec![
             e(Group::double(&p)),
             e(-p),
@@ -177,7 +221,7 @@ pub fn register(m: &mut HashMap<&'static str, OpFn>) {
         let p = Option::<SubgroupPoint>::from(a.ed(0).into_subgroup()).unwrap_or_else(|| panic!("ARG: not torsion free"));
         let q = Option::<SubgroupPoint>::from(a.ed(1).into_subgroup()).unwrap_or_else(|| panic!("ARG: not torsion free"));
         let s = a.sc(2);
-        let e = |x: SubgroupPoint| hex(x.to_bytes().as_ref());
+        let e = |x: SubgroupPoint| { let h = ed_hex_checked(&EdwardsPoint::from(x)); debug_assert!(h.starts_with(&hex(x.to_bytes().as_ref()))); h };
         let ep = a.ed(0);
         vec![
             e(Group::double(&p)),
@@ -217,7 +261,7 @@ pub fn register(m: &mut HashMap<&'static str, OpFn>) {
     });
     m.insert("gp.rs_ops", |a| {
         let (p, q, s) = (a.rs(0), a.rs(1), a.sc(2));
-        let e = |x: RistrettoPoint| hex(x.compress().as_bytes());
+        let e = |x: RistrettoPoint| rs_hex_checked(&x);
         vec![
             e(Group::double(&p)),
             e(-p),
